@@ -50,7 +50,6 @@ import (
 	"go/types"
 	"log"
 	"os"
-	"reflect"
 	"regexp"
 	"slices"
 	"strings"
@@ -100,6 +99,14 @@ type interpreter struct {
 	inHarness          bool
 	ltPoison           bool
 	regexps            map[*value]*regexp.Regexp
+	threads            []*gthread
+	cur                *gthread
+	killing            bool
+	pendingCrash       interface{}
+	mutexes            map[*value]*mutexState
+	wgs                map[*value]*wgState
+	raceID             string
+	shadow             map[interface{}]*shadowCell
 }
 
 type deferred struct {
@@ -261,12 +268,16 @@ func visitInstr(fr *frame, instr ssa.Instruction) continuation {
 		panic(targetPanic{fr.get(instr.X)})
 
 	case *ssa.Send:
-		fr.get(instr.Chan).(chan value) <- fr.get(instr.X)
+		c, _ := fr.get(instr.Chan).(*vchan)
+		fr.i.chanSend(c, fr.get(instr.X))
 
 	case *ssa.Store:
 		addr := fr.get(instr.Addr).(*value)
 		if addr == nil {
 			panic(runtimeErr("invalid memory address or nil pointer dereference"))
+		}
+		if fr.i.raceID != "" {
+			fr.i.access(addr, true, "variable")
 		}
 		store(mustDeref(instr.Addr.Type()), addr, fr.get(instr.Val))
 
@@ -296,10 +307,11 @@ func visitInstr(fr *frame, instr ssa.Instruction) continuation {
 		}
 
 	case *ssa.Go:
-		unsup("go statement (the engine is sequential)")
+		fn, args := prepareCall(fr, &instr.Call)
+		fr.i.spawn(fn, args, instr)
 
 	case *ssa.MakeChan:
-		fr.env[instr] = make(chan value, asInt64(fr.get(instr.Size)))
+		fr.env[instr] = &vchan{cap: int(asInt64(fr.get(instr.Size)))}
 
 	case *ssa.Alloc:
 		var addr *value
@@ -339,6 +351,9 @@ func visitInstr(fr *frame, instr ssa.Instruction) continuation {
 		fr.env[instr] = makeMap(instr.Type().Underlying().(*types.Map).Key(), reserve)
 
 	case *ssa.Range:
+		if m, ok := fr.get(instr.X).(*omap); ok && fr.i.raceID != "" && m != nil {
+			fr.i.access(m, false, "map")
+		}
 		fr.env[instr] = fr.i.rangeIter(fr.get(instr.X), instr.X.Type())
 
 	case *ssa.Next:
@@ -403,6 +418,9 @@ func visitInstr(fr *frame, instr ssa.Instruction) continuation {
 		}
 
 	case *ssa.Lookup:
+		if m, ok := fr.get(instr.X).(*omap); ok && fr.i.raceID != "" && m != nil {
+			fr.i.access(m, false, "map")
+		}
 		fr.env[instr] = fr.i.lookup(instr, fr.get(instr.X), fr.get(instr.Index))
 
 	case *ssa.MapUpdate:
@@ -411,6 +429,9 @@ func visitInstr(fr *frame, instr ssa.Instruction) continuation {
 		v := fr.get(instr.Value)
 		switch m := m.(type) {
 		case *omap:
+			if fr.i.raceID != "" {
+				fr.i.access(m, true, "map")
+			}
 			m.insert(fr.i, cloneAgg(key), cloneAgg(v))
 		default:
 			panic(fmt.Sprintf("illegal map type: %T", m))
@@ -430,40 +451,22 @@ func visitInstr(fr *frame, instr ssa.Instruction) continuation {
 		log.Fatal("unreachable") // phis are processed at block entry
 
 	case *ssa.Select:
-		var cases []reflect.SelectCase
-		if !instr.Blocking {
-			cases = append(cases, reflect.SelectCase{
-				Dir: reflect.SelectDefault,
-			})
-		}
+		var cases []selCase
 		for _, state := range instr.States {
-			var dir reflect.SelectDir
-			if state.Dir == types.RecvOnly {
-				dir = reflect.SelectRecv
-			} else {
-				dir = reflect.SelectSend
-			}
-			var send reflect.Value
+			c, _ := fr.get(state.Chan).(*vchan)
+			sc := selCase{send: state.Dir != types.RecvOnly, c: c}
 			if state.Send != nil {
-				send = reflect.ValueOf(fr.get(state.Send))
+				sc.v = fr.get(state.Send)
 			}
-			cases = append(cases, reflect.SelectCase{
-				Dir:  dir,
-				Chan: reflect.ValueOf(fr.get(state.Chan)),
-				Send: send,
-			})
+			cases = append(cases, sc)
 		}
-		chosen, recv, recvOk := reflect.Select(cases)
-		if !instr.Blocking {
-			chosen-- // default case should have index -1.
-		}
+		chosen, recv, recvOk := fr.i.chanSelect(cases, instr.Blocking)
 		r := tuple{chosen, recvOk}
 		for i, st := range instr.States {
 			if st.Dir == types.RecvOnly {
 				var v value
 				if i == chosen && recvOk {
-					// No need to copy since send makes an unaliased copy.
-					v = recv.Interface().(value)
+					v = recv
 				} else {
 					v = zero(st.Chan.Type().Underlying().(*types.Chan).Elem())
 				}
